@@ -663,7 +663,6 @@ func mutexUnlock(fr *frame, args []value) value {
 		panic(targetPanic{v: in.runtimeError("sync: unlock of unlocked mutex")})
 	}
 	in.set(st, int32(0))
-	in.yield(fr)
 	return nil
 }
 
@@ -718,7 +717,6 @@ func rwUnlock(fr *frame, args []value) value {
 		panic(targetPanic{v: in.runtimeError("sync: Unlock of unlocked RWMutex")})
 	}
 	in.set(w, int32(0))
-	in.yield(fr)
 	return nil
 }
 
@@ -738,7 +736,6 @@ func rwRUnlock(fr *frame, args []value) value {
 		panic(targetPanic{v: in.runtimeError("sync: RUnlock of unlocked RWMutex")})
 	}
 	in.set(rc, int32(asInt64(*rc)-1))
-	in.yield(fr)
 	return nil
 }
 
@@ -789,7 +786,6 @@ func wgAdd(fr *frame, args []value) value {
 		panic(targetPanic{v: in.runtimeError("sync: negative WaitGroup counter")})
 	}
 	in.set(c, uint64(n))
-	in.yield(fr)
 	return nil
 }
 
